@@ -184,13 +184,17 @@ def clone(v, _memo=None):
         if id(v) in _memo:
             return _memo[id(v)]
         o = _Obj(v.modname, v.cls, {}, v.tuple_like)
+        if getattr(v, "value_eq", None) is not None:
+            o.value_eq = v.value_eq
         _memo[id(v)] = o
         o.fields = {k: clone(x, _memo) for k, x in v.fields.items()}
         return o
     if isinstance(v, list):
-        return [clone(x) for x in v]
+        _memo = {} if _memo is None else _memo
+        return [clone(x, _memo) for x in v]
     if isinstance(v, dict):
-        return {k: clone(x) for k, x in v.items()}
+        _memo = {} if _memo is None else _memo  # two names for one object stay two names for one object
+        return {k: clone(x, _memo) for k, x in v.items()}
     if isinstance(v, _Iter):
         return _Iter(v.items, v.pos)
     return v
@@ -433,6 +437,7 @@ class Evaluator:
         self._opaque_log = []  # result terms of calls that were not inlined (their callee may raise anything)
         self.io_fn = None  # optional callable(method, receiver, args, kwargs) -> value / NotImplemented: scripted I/O device
         self.assume_fn = None  # optional callable(condition term) -> True / False / None: scripted outcome of environment predicates
+        self.range_fn = None  # optional callable(integer term) -> (lo, hi) / None: a range the obligation vouches for
 
     def decide(self, c):
         """Fold a condition with the obligation's mode assumptions."""
@@ -911,7 +916,64 @@ class Evaluator:
                         return True
                     if f == n or tm.veq(f, n):
                         return False
+        if isinstance(c, T):
+            r = self._by_interval(c, fr.facts)
+            if r is not None:
+                return r
         return c
+
+    def _by_interval(self, c, facts, depth=0):
+        """A comparison of an integer term with a constant, decided by the interval the term is confined to (a table index, a
+        byte, a value reduced mod m, ...): `0 <= wordlist.index(w) < 2048` is true whatever the word."""
+        from . import ival
+        if depth > 6 or not isinstance(c, T):
+            return None
+        if c.op in ("land", "lor"):
+            rs = [self._by_interval(x, facts, depth + 1) if isinstance(x, T) else (x if isinstance(x, bool) else None) for x in c.args]
+            if c.op == "land":
+                return False if any(r is False for r in rs) else (True if all(r is True for r in rs) else None)
+            return True if any(r is True for r in rs) else (False if all(r is False for r in rs) else None)
+        if c.op == "not":
+            r = self._by_interval(c.args[0], facts, depth + 1)
+            return None if r is None else (not r)
+        if c.op != "cmp" or c.args[0] not in ("lt", "le", "gt", "ge", "eq", "ne"):
+            return None
+        opn, a, b = c.args
+        flip = {"lt": "gt", "le": "ge", "gt": "lt", "ge": "le", "eq": "eq", "ne": "ne"}
+        if isinstance(a, int) and not isinstance(a, bool) and isinstance(b, T):
+            opn, a, b = flip[opn], b, a
+        if not (isinstance(a, T) and isinstance(b, int) and not isinstance(b, bool)) or tm.tyof(a) not in (tm.INT, tm.ANY):
+            return None
+        if a.op not in ("m:index", "lookup", "bor", "bxor", "shl", "shr", "band", "mod", "idx", "b2i", "add", "mul", "floordiv", "ite"):
+            return None
+        facts = list(facts)
+        rf = getattr(self, "range_fn", None)
+        if rf is not None:
+            # ranges the obligation states for opaque integer sources (e.g. an index into a table whose size it has checked)
+            seen_ = set()
+            for t_ in tm.subterms(a):
+                if isinstance(t_, T) and t_ not in seen_:
+                    seen_.add(t_)
+                    r_ = rf(t_)
+                    if r_ is not None:
+                        facts += [tm.cmp("ge", t_, r_[0]), tm.cmp("le", t_, r_[1])]
+        try:
+            lo, hi = ival.interval(a, facts)
+        except RecursionError:
+            return None
+        if opn == "lt":
+            return True if hi is not None and hi < b else (False if lo is not None and lo >= b else None)
+        if opn == "le":
+            return True if hi is not None and hi <= b else (False if lo is not None and lo > b else None)
+        if opn == "gt":
+            return True if lo is not None and lo > b else (False if hi is not None and hi <= b else None)
+        if opn == "ge":
+            return True if lo is not None and lo >= b else (False if hi is not None and hi < b else None)
+        if opn == "eq":
+            return False if (lo is not None and lo > b) or (hi is not None and hi < b) else (True if lo == hi == b else None)
+        if opn == "ne":
+            return True if (lo is not None and lo > b) or (hi is not None and hi < b) else (False if lo == hi == b else None)
+        return None
 
     def under_facts(self, v, fr):
         """A value that is a choice ite(c, a, b) on a condition the path has already established is the chosen branch."""
@@ -955,15 +1017,18 @@ class Evaluator:
             if ctl:
                 fr.env["__loopctl__"] = True
             return brk is None
+        pre_env = fr.env
         if t1:
             fr.env = f2.env
             fr.facts = f2.facts
+            self._rebind_objects(pre_env, fr.env)
             if ctl:
                 fr.env["__loopctl__"] = True
             return False
         if t2:
             fr.env = f1.env
             fr.facts = f1.facts
+            self._rebind_objects(pre_env, fr.env)
             if ctl:
                 fr.env["__loopctl__"] = True
             return False
@@ -972,11 +1037,29 @@ class Evaluator:
         for k in list(f1.env.keys()) + [k for k in f2.env.keys() if k not in f1.env]:
             a = f1.env.get(k, T("undef", (k,)))
             b = f2.env.get(k, T("undef", (k,)))
+            if isinstance(a, _Obj) and isinstance(b, _Obj) and not a.tuple_like and (a.modname, a.cls) == (b.modname, b.cls):
+                # one object seen on two paths: its state is the field-wise join
+                a.fields = {f_: (a.fields[f_] if f_ in a.fields and f_ in b.fields and tm.veq(a.fields[f_], b.fields[f_]) else
+                                 self.merge(c, a.fields.get(f_, T("undef", (f_,))), b.fields.get(f_, T("undef", (f_,))))) for f_ in list(a.fields) + [x for x in b.fields if x not in a.fields]}
+                env[k] = a
+                continue
             env[k] = a if tm.veq(a, b) else self.merge(c, a, b)
         if ctl:
             env["__loopctl__"] = True
         fr.env = env
+        self._rebind_objects(pre_env, fr.env)
         return False
+
+    @staticmethod
+    def _rebind_objects(pre_env, new_env):
+        """Objects are heap cells: whoever created one (a caller, a constructor frame) holds the cell that existed before the
+        fork. After the join the surviving state is moved INTO those cells, and the names point at them again."""
+        for k, o in pre_env.items():
+            if isinstance(o, _Obj) and not o.tuple_like:
+                a = new_env.get(k)
+                if isinstance(a, _Obj) and a is not o and (a.modname, a.cls) == (o.modname, o.cls):
+                    o.fields = a.fields
+                    new_env[k] = o
 
     def merge(self, c, a, b):
         if isinstance(a, dict) and isinstance(b, dict) and a.keys() == b.keys():
@@ -1904,6 +1987,12 @@ class Evaluator:
                     if r is NotImplemented and name == "ne":
                         r = self.dunder(left, "eq", [right], e, fr)
                         r = tm.lnot(tm.truth(r)) if r is not NotImplemented else r
+                    if r is NotImplemented and name in ("eq", "ne") and isinstance(left, _Obj) and getattr(left, "value_eq", None) is not None:
+                        if isinstance(right, _Obj) and (right.modname, right.cls) == (left.modname, left.cls):
+                            r = tm.land([tm.cmp("eq", left.fields.get(f_), right.fields.get(f_)) for f_ in left.value_eq])
+                        else:
+                            r = False
+                        r = r if name == "eq" else tm.lnot(r)
                     if r is not NotImplemented:
                         outs.append(tm.truth(r))
                         done = True
@@ -2022,6 +2111,10 @@ class Evaluator:
         sub = sub or fr.fork()
         gen = e.generators[gi]
         it = self.expr(gen.iter, sub)
+        if isinstance(it, _Obj) and not it.tuple_like:
+            items_ = self.obj_iter(it, gen.iter, sub)  # an object of a package class: what its __iter__ / __next__ yield
+            if items_ is not None:
+                it = items_
         seq = _concrete_iter(it)
         if seq is None:
             seq = self._bound_length_iter(it)
@@ -2275,12 +2368,26 @@ class Evaluator:
         decos = {(".".join(dotted_parts(d.func if isinstance(d, ast.Call) else d) or ["?"])).split(".")[-1] for d in node.decorator_list}
         meths, assigns = self.class_members(modname, cls)
         if "NamedTuple" in bases or "dataclass" in decos:
-            names, defaults = [], {}
+            names, defaults, noinit = [], {}, []
             for mn, st in assigns:
                 if isinstance(st, ast.AnnAssign) and isinstance(st.target, ast.Name) and "ClassVar" not in ast.unparse(st.annotation):
+                    v0 = st.value
+                    if isinstance(v0, ast.Call) and (dotted_parts(v0.func) or ["?"])[-1] == "field" and "dataclass" in decos:
+                        # dataclasses.field(default=.., default_factory=.., init=False, ...)
+                        kws = {k.arg: k.value for k in v0.keywords}
+                        f0 = Frame(self, mn, None, Summary(None), 0)
+                        if "init" in kws and isinstance(kws["init"], ast.Constant) and kws["init"].value is False:
+                            noinit.append(st.target.id)
+                        else:
+                            names.append(st.target.id)
+                        if "default" in kws:
+                            defaults[st.target.id] = self.expr(kws["default"], f0)
+                        elif "default_factory" in kws:
+                            defaults[st.target.id] = self.call_value(self.expr(kws["default_factory"], f0), [], {}, v0, fr)
+                        continue
                     names.append(st.target.id)
-                    if st.value is not None:
-                        defaults[st.target.id] = self.expr(st.value, Frame(self, mn, None, Summary(None), 0))
+                    if v0 is not None:
+                        defaults[st.target.id] = self.expr(v0, Frame(self, mn, None, Summary(None), 0))
             if len(pos) > len(names) or any(k not in names for k in kw):
                 return T("raise", ("TypeError",))
             fields = {}
@@ -2295,7 +2402,13 @@ class Evaluator:
                     if nme not in defaults:
                         return T("raise", ("TypeError",))
                     fields[nme] = defaults[nme]
-            obj = _Obj(modname, cls, {nme: fields[nme] for nme in names}, tuple_like="NamedTuple" in bases)
+            for nme in noinit:
+                if nme in defaults:
+                    fields[nme] = defaults[nme]  # otherwise the field exists only once __post_init__ has set it
+            obj = _Obj(modname, cls, {nme: fields[nme] for nme in names + noinit if nme in fields}, tuple_like="NamedTuple" in bases)
+            if "dataclass" in decos and not any(isinstance(d, ast.Call) and any(k.arg == "eq" and isinstance(k.value, ast.Constant) and k.value.value is False for k in d.keywords)
+                                                 for d in node.decorator_list):
+                obj.value_eq = tuple(names)  # a dataclass compares field by field (fields with compare=False aside)
             if "dataclass" in decos and "__post_init__" in meths:
                 self.call_fn(meths["__post_init__"], [obj], {}, e, fr)
             return obj
@@ -2926,6 +3039,16 @@ class Evaluator:
                     if "default" in kw:
                         return kw["default"]
             return T(n, tuple(sorted((tm._fz(p) for p in pos), key=tm.sortkey)), tm.INT)
+        if n == "sum" and isinstance(a0, _Iter):
+            a0 = a0.rest()
+        if n == "sum" and isinstance(a0, (list, tuple)) and any(isinstance(x, _Obj) for x in list(a0) + list(pos[1:2])):
+            acc = pos[1] if len(pos) > 1 else kw.get("start", 0)  # sum() is a left fold with +, i.e. __add__ / __radd__
+            for x in a0:
+                r_ = self.dunder(acc, "add", [x], e, fr)
+                if r_ is NotImplemented:
+                    r_ = self.dunder(x, "radd", [acc], e, fr)
+                acc = r_ if r_ is not NotImplemented else self.binop(ast.Add(), acc, x, e)
+            return acc
         if n == "sum" and isinstance(a0, list):
             return tm.add(a0 + list(pos[1:2]))
         if n == "sum" and isinstance(a0, T) and a0.op == "map" and len(pos) == 1:
@@ -2962,6 +3085,28 @@ class Evaluator:
             if t != tm.ANY and (not (isinstance(a0, T) and a0.op == "param") or getattr(self, "typed_params", False)):
                 return T("ext", ("builtins." + {"none": "NoneType"}.get(t, t),))
             return T("typeof", (a0,))
+        if n == "isinstance" and len(pos) == 2:
+            want0 = pos[1] if isinstance(pos[1], (tuple, list)) else (pos[1],)
+            crefs = [w.args[0] for w in want0 if isinstance(w, T) and w.op == "classref"]
+            exts = [w.args[0] for w in want0 if isinstance(w, T) and w.op == "ext"]
+            if isinstance(a0, _Obj) and len(crefs) + len(exts) == len(want0):
+                mine = {a0.modname + "." + a0.cls}
+                work = [(a0.modname, a0.cls)]
+                while work:  # package base classes
+                    mn_, cn_ = work.pop()
+                    node_ = self.prog.modules[mn_].classnodes.get(cn_) if mn_ in self.prog.modules else None
+                    for b_ in (node_.bases if node_ is not None else []):
+                        r_ = self.prog.resolve_chain(mn_, dotted_parts(b_) or [])
+                        if r_ is not None and r_[0] == "class" and (r_[1].name + "." + r_[2]) not in mine:
+                            mine.add(r_[1].name + "." + r_[2])
+                            work.append((r_[1].name, r_[2]))
+                if mine & set(crefs):
+                    return True
+                if a0.tuple_like and "builtins.tuple" in exts:
+                    return True
+                return "builtins.object" in exts
+            if crefs and len(crefs) == len(want0) and not isinstance(a0, _Obj) and (tm.is_conc(a0) or (isinstance(a0, T) and a0.op not in ("param", "ite", "app", "proj", "idx", "attr", "unk", "lookup", "get") and tm.tyof(a0) != tm.ANY)):
+                return False  # a plain value (number, bytes, a term of builtin type) is not an instance of a package class
         if n == "isinstance":
             t = tm.tyof(a0)
             if t != tm.ANY and len(pos) == 2 and getattr(self, "typed_params", False):
@@ -2994,6 +3139,29 @@ class Evaluator:
             for k, d in self.objects.items():
                 if tm.veq(k, a0):
                     return dict(d)
+        if n in ("setattr", "object.__setattr__") and len(pos) == 3 and isinstance(pos[1], str) and isinstance(a0, _Obj):
+            a0.fields[pos[1]] = pos[2]  # also how a frozen dataclass sets its own fields in __post_init__
+            return None
+        if n == "next" and pos and isinstance(a0, _Obj) and not a0.tuple_like:
+            meths_, _a_ = self.class_members(a0.modname, a0.cls)
+            nx_ = meths_.get("__next__")
+            if nx_ is not None:
+                sub_ = self.run(nx_, {nx_.params()[0]: a0}, depth=fr.depth + 1)
+                k_, v_ = None, None
+                for ex_ in sub_.exits:
+                    g_ = tm.land(list(ex_.guard))
+                    if g_ is False:
+                        continue
+                    k_, v_ = (ex_.kind, ex_) if g_ is True else ("undecided", ex_)
+                    break
+                if k_ == "return":
+                    fr.summary.calls.extend((c[0], c[1], c[2], c[3], tuple(fr.guard) + tuple(c[4]), tuple(fr.facts) + tuple(c[5] if len(c) > 5 else ()),
+                                             _merge_iters(fr.iters, c[6] if len(c) > 6 else {})) for c in sub_.calls)
+                    return v_.value
+                if k_ == "raise" and (v_.exc or "").split(".")[-1] == "StopIteration":
+                    if len(pos) > 1:
+                        return pos[1]
+                    return T("raise", ("StopIteration",))
         if n == "setattr" and len(pos) == 3 and isinstance(pos[1], str) and isinstance(a0, T) and a0.op == "param":
             fr.env[a0.args[0] + "." + pos[1]] = pos[2]  # setattr(self, "name", v) is self.name = v
             return None
